@@ -23,7 +23,7 @@ func checkSummaryKeepsChunks(p *Program, r *Result, rule string) {
 		return
 	}
 	// topic-selection fields
-	topicFields := map[string]bool{}
+	topicFields := map[string]bool{} // "Type.field" of every struct field of the package filled from ReadOptions.Topics
 	var derives func(v ssa.Value, depth int, seen map[ssa.Value]bool) bool
 	derives = func(v ssa.Value, depth int, seen map[ssa.Value]bool) bool {
 		if v == nil || depth > 12 || seen[v] {
@@ -84,14 +84,14 @@ func checkSummaryKeepsChunks(p *Program, r *Result, rule string) {
 		}
 		return false
 	}
-	for _, rf := range regionOf(p, ctor, 2) {
+	for _, rf := range regionOf(p, ctor, 3) {
 		for _, in := range instrsOf(rf) {
 			st, ok := in.(*ssa.Store)
 			if !ok {
 				continue
 			}
-			if tn, f, _, ok := fieldRef(st.Addr); ok && tn == "indexedMessageIterator" && derives(st.Val, 0, map[ssa.Value]bool{}) {
-				topicFields[f] = true
+			if tn, f, _, ok := fieldRef(st.Addr); ok && tn != "" && tn != "ReadOptions" && derives(st.Val, 0, map[ssa.Value]bool{}) {
+				topicFields[tn+"."+f] = true
 			}
 		}
 	}
@@ -118,7 +118,7 @@ func checkSummaryKeepsChunks(p *Program, r *Result, rule string) {
 		switch x := v.(type) {
 		case *ssa.UnOp:
 			if x.Op == token.MUL {
-				if tn, f, _, ok := fieldRef(x.X); ok && tn == "indexedMessageIterator" && topicFields[f] {
+				if tn, f, _, ok := fieldRef(x.X); ok && topicFields[tn+"."+f] {
 					return true
 				}
 			}
@@ -149,7 +149,7 @@ func checkSummaryKeepsChunks(p *Program, r *Result, rule string) {
 			if g := x.Call.StaticCallee(); g != nil && g.Blocks != nil && p.isRepoFunc(g) && depth < 3 {
 				for _, in := range instrsOf(g) {
 					if u, ok := in.(*ssa.UnOp); ok && u.Op == token.MUL {
-						if tn, f, _, ok := fieldRef(u.X); ok && tn == "indexedMessageIterator" && topicFields[f] {
+						if tn, f, _, ok := fieldRef(u.X); ok && topicFields[tn+"."+f] {
 							return true
 						}
 					}
